@@ -40,6 +40,7 @@ REQUIRED = {
     "timer_zero": {"quick": 15, "thorough": 450},
     "falsy_elements_expected": {"quick": 300, "thorough": 9000},
     "elements_compared": {"quick": 5000, "thorough": 150000},
+    "second_subscriptions_checked": {"quick": 1500, "thorough": 45000},
 }
 UNIT_TIMEOUT = {"quick": 300, "thorough": 1800}
 ACTION_BUDGET = 2000
@@ -395,6 +396,8 @@ def run_case(seed: int, idx: int, res: UnitResult) -> None:
         why = "still scheduling after %d scheduler actions (expected %d notifications)" % (ACTION_BUDGET, len(expected) + 1)
     if why is None and esc:
         why = "exception escaped into the scheduler: %r" % (esc[0],)
+    if why is None and idx % 2 == 0:
+        second_subscription_case(case, seed, idx, res)
     if why is not None:
         mech = "C37:%s" % f
         if (f == "generate_with_relative_time" and zero_at is not None and esc and isinstance(esc[0], AssertionError)
@@ -403,6 +406,49 @@ def run_case(seed: int, idx: int, res: UnitResult) -> None:
             mech = "C37:generate_with_relative_time:zero-delay"
         res.violation(mech, {"why": why, "case": desc, "expected": show_timed(expected), "expected_terminal": terminal[0] if terminal else None,
                              "observed": show_timed(actual[:40]), "escaped_to_scheduler": [repr(e) for e in esc[:2]]},
+                      {"seed": seed, "idx": idx})
+
+
+def second_subscription_case(case: dict, seed: int, idx: int, res: UnitResult) -> None:
+    """The factory's observable is subscribed a second time, long after its first subscription is over: it emits its specified
+    sequence again, relative to the second subscription (one-shot iterables given to from_iterable are exhausted: skipped)."""
+    f, P = case["factory"], case["P"]
+    if f == "from_iterable" and P["container"] in ("generator", "iterator"):
+        return
+    T2 = case["sub_at"] + 2000.0
+    case2 = dict(case, sub_at=T2)
+    try:
+        expected, terminal = model(case2)
+    except OverflowError:
+        return
+    if f == "timer" and P["form"] == "datetime":
+        expected = [(T2, "N", 0)]          # the absolute due time has passed: fires at once
+    lab = Lab("num")
+    first, second = lab.observer("first", inner=False), lab.observer("second", inner=False)
+    holder: dict = {}
+
+    def sub(o: Any) -> None:
+        if "src" not in holder:
+            holder["src"] = build(case, lab.ts)
+        if case["mode"] == "factory":
+            o.subscription = holder["src"].subscribe(o)
+        else:
+            o.subscription = holder["src"].subscribe(o, scheduler=lab.ts)
+    lab.at(case["sub_at"], lambda: sub(first))
+    lab.at(T2, lambda: sub(second))
+    over = [False]
+
+    def budget(n: int) -> None:
+        if n > 2 * ACTION_BUDGET and not over[0]:
+            over[0] = True
+            lab.ts.stop()
+    lab.action_hook = budget
+    lab.run()
+    res.count("second_subscriptions_checked")
+    why = "action budget exceeded" if over[0] else compare(expected, terminal, second.timed(), UnitResult())
+    if why is not None:
+        res.violation("C37:%s:second-subscription" % f, {"why": why, "case": describe(case), "second_subscribed_at": T2, "expected": show_timed(expected),
+                                                          "observed": show_timed(second.timed()[:40]), "first": show_timed(first.timed()[:40])},
                       {"seed": seed, "idx": idx})
 
 
